@@ -453,7 +453,8 @@ class ConsHist(Engine):
         "Iff/Exists/Forall/Equals/LE/GE/LT/GT/Plus/Minus/Times/Div/FluentExp/ParameterExp/VariableExp/ObjectExp/Int/"
         "Real/Bool, auto-promotion of python literals and model objects, FNode operator overloading and methods), >= 40% "
         "repetitions of earlier descriptors spelled differently (list vs unpacked arguments, GE vs mirrored LE, 1-ary "
-        "And, double negation, 2 vs 2.0 vs '2' vs Fraction(2)), quantifiers with repeated variables, two interpreted functions that "
+        "And, double negation, 2 vs 2.0 vs '2' vs '2.0' vs '4/2' vs Fraction(2)), XOr and the trajectory operators, quantifiers with "
+        "repeated variables, a bystander that pickles / deep-copies an interpreted function in use, two interpreted functions that "
         "differ only in their callable, ~10% ill-typed constructions, and (async profile) "
         "MemoryError injected at a line event of one construction. non-trivial = >= 10 repeated normal forms AND >= 1 "
         "normalisation case AND (async profile) a fired fault followed by >= 5 judged constructions; distinct = digest of "
